@@ -389,7 +389,13 @@ func Run(r *common.Run) error {
 	Enumerate(e, 29)
 	n := r.Pick(4000, 60000)
 	for i := 0; i < n; i++ {
-		e.Do(RandomCase(r.Rnd, false), "random")
+		cs := RandomCase(r.Rnd, false)
+		// a fifth of the runs hand the library a plain io.ReadWriter instead of a net.Conn
+		// (another newConn path; nothing of C01 may depend on the transport)
+		if r.Rnd.Chance(1, 5) {
+			cs.Raw = true
+		}
+		e.Do(cs, "random")
 	}
 	r.Notes = append(r.Notes, fmt.Sprintf("%d negotiation runs of the real NewSession/ReceiveSession", e.N))
 	return nil
